@@ -1142,14 +1142,21 @@ func (fi *FuncInfo) peelableLoops() (map[*ssa.BasicBlock]*ssa.BasicBlock, map[*s
 			used := false
 			for _, ref := range *ph.Referrers() {
 				bo, ok := ref.(*ssa.BinOp)
-				if !ok || (bo.Op != token.EQL && bo.Op != token.NEQ) || !h.Dominates(bo.Block()) {
+				if !ok || !h.Dominates(bo.Block()) {
+					continue
+				}
+				switch bo.Op {
+				case token.EQL, token.NEQ, token.LSS, token.LEQ, token.GTR, token.GEQ:
+				default:
 					continue
 				}
 				other := bo.Y
 				if bo.Y == ssa.Value(ph) {
 					other = bo.X
 				}
-				if c, isC := other.(*ssa.Const); isC && c.Value != nil && c.Value.Kind() == constant.Int && constant.Compare(c.Value, token.EQL, c0) {
+				// a test of the induction variable against a constant inside the body (not the loop condition itself:
+				// that one leaves the loop) — `if i != 63`, `if i < 63`
+				if c, isC := other.(*ssa.Const); isC && c.Value != nil && c.Value.Kind() == constant.Int && bo.Block() != h {
 					for _, r2 := range *bo.Referrers() {
 						if _, isIf := r2.(*ssa.If); isIf {
 							used = true
@@ -1288,20 +1295,33 @@ func (fi *FuncInfo) dataflow() {
 				h := peelOf[b]
 				// decided comparisons of the induction variable with its initial value
 				if ifi, ok := b.Instrs[len(b.Instrs)-1].(*ssa.If); ok {
-					if bo, ok := ifi.Cond.(*ssa.BinOp); ok && (bo.Op == token.EQL || bo.Op == token.NEQ) {
-						var other ssa.Value
-						if bo.X == ssa.Value(peelPhi[h]) {
-							other = bo.Y
-						} else if bo.Y == ssa.Value(peelPhi[h]) {
-							other = bo.X
-						}
-						if c, ok := other.(*ssa.Const); ok && c.Value != nil && constant.Compare(c.Value, token.EQL, peelConst[h]) {
-							taken := 0 // EQL: true edge
-							if bo.Op == token.NEQ {
-								taken = 1
+					if bo, ok := ifi.Cond.(*ssa.BinOp); ok {
+						switch bo.Op {
+						case token.EQL, token.NEQ, token.LSS, token.LEQ, token.GTR, token.GEQ:
+							// in the first iteration the induction variable HAS its initial value: any comparison of it
+							// with a constant is decided (`if i != 63`, `if i < 63`, `if i > 0` …)
+							var c *ssa.Const
+							phiLeft := false
+							if bo.X == ssa.Value(peelPhi[h]) {
+								c, _ = bo.Y.(*ssa.Const)
+								phiLeft = true
+							} else if bo.Y == ssa.Value(peelPhi[h]) {
+								c, _ = bo.X.(*ssa.Const)
 							}
-							if si != taken {
-								continue
+							if c != nil && c.Value != nil && c.Value.Kind() == constant.Int {
+								var truth bool
+								if phiLeft {
+									truth = constant.Compare(peelConst[h], bo.Op, c.Value)
+								} else {
+									truth = constant.Compare(c.Value, bo.Op, peelConst[h])
+								}
+								taken := 1
+								if truth {
+									taken = 0
+								}
+								if si != taken {
+									continue
+								}
 							}
 						}
 					}
